@@ -507,8 +507,74 @@ class Scn:
                             {"ran": sorted(x[-2:] for x in bodies)}, {})
 
 
-def build(desc: dict) -> Scn:
-    return Scn(desc)
+class PurgeScn:
+    """The retention purge of a finished same-key invocation (auto_purge, as the monitor triggers it) runs
+    concurrently with a new submission of that key; afterwards (sequentially) the new invocation is started and a
+    third one with the same key is submitted and polled: it must be held back."""
+
+    def __init__(self, desc: dict) -> None:
+        self.desc = desc
+        self.points = (worlds.MEM_FILES, "line") if desc["backend"] == env.MEM else None
+
+    def execute(self, choices: list[int], expect: Any) -> sched.Execution:
+        from pynenc.invocation.status import InvocationStatus as S
+
+        d = self.desc
+        w = World(d["backend"], 3, app_id="c06p", auto_final_invocation_purge_hours=0.0)
+        w.bind(tasks.keyed, **task_options(d["mode"], False))
+        t = w.task("keyed", 2)
+        first = t(0, 0)
+        for inv in w.apps[2].orchestrator.get_invocations_to_run(1, runner_ctx("r9")):
+            inv.run(runner_ctx("r9"))
+        w.ids = [str(first.invocation_id)]
+        w.flush()
+        made: list = []
+
+        def purger() -> None:
+            w.apps[0].orchestrator.auto_purge()
+
+        def submitter() -> None:
+            made.append(str(w.task("keyed", 1)(0, 0).invocation_id))
+
+        s = sched.Scheduler(choices, expect, max_points=6000, lazy=("_add_histories",))
+        ex = s.run([("purger", purger), ("submitter", submitter)])
+        ex.world = w
+        ep: dict = {"second": made[0] if made else None}
+        if made and ex.outcome == "done":
+            o = w.apps[2].orchestrator
+            got = [str(i.invocation_id) for i in o.get_invocations_to_run(1, runner_ctx("r1"))]
+            ep["claimed_by_r1"] = got
+            if got == made:
+                o.set_invocation_status(made[0], S.RUNNING, runner_ctx("r1"))
+                third = str(t(0, 0).invocation_id)
+                ep["third"] = third
+                try:
+                    ep["claimed_by_r2"] = [str(i.invocation_id) for i in o.get_invocations_to_run(1, runner_ctx("r2"))]
+                except Exception as e:  # noqa: BLE001
+                    ep["claimed_by_r2"] = f"raise:{type(e).__name__}"
+                ep["third_status"] = o.get_invocation_status(third).name
+        ex.epilogue = ep
+        return ex
+
+    def digest(self, ex: sched.Execution) -> Any:
+        ep = ex.epilogue
+        return (ep.get("claimed_by_r1") == [ep.get("second")], bool(ep.get("claimed_by_r2")), ep.get("third_status"), ex.outcome)
+
+    def check(self, ex: sched.Execution, p: Partial) -> None:
+        d, ep = self.desc, ex.epilogue
+        base = dict(backend=d["backend"], mode=d["mode"], subs="purge-race")
+        if ex.outcome != "done":
+            p.violation({"clause": f"no-progress:{ex.outcome}", **base}, {}, {})
+            return
+        if ep.get("claimed_by_r1") != [ep.get("second")]:
+            p.violation({"clause": "new-submission-not-claimable-after-purge", **base}, {"epilogue": ep}, {})
+            return
+        if ep.get("claimed_by_r2") or ep.get("third_status") != "CONCURRENCY_CONTROLLED_FINAL":
+            p.violation({"clause": "handed-out-despite-same-key-running-peer", **base}, {"epilogue": ep}, {})
+
+
+def build(desc: dict) -> Any:
+    return PurgeScn(desc) if desc.get("subs") == "purge-race" else Scn(desc)
 
 
 def run(ctx: Ctx) -> None:
@@ -534,6 +600,9 @@ def run(ctx: Ctx) -> None:
                         continue
                     ds.append(dict(backend=backend, mode=mode, reroute=rr, subs=subs,
                                    bound=2 if (ctx.thorough and subs in ("same", "held")) else 1))
+    for backend in env.BACKENDS:
+        for mode in ("ARGUMENTS", "KEYS"):
+            ds.append(dict(backend=backend, mode=mode, reroute=False, subs="purge-race", bound=2 if ctx.thorough else 1))
     if getattr(ctx, "only", None):
         ds = [d for d in ds if ctx.only in e1.desc_key(d)]
     e1.explore_all(ctx, MOD, ds, lambda d: d["bound"])
@@ -543,7 +612,8 @@ def run(ctx: Ctx) -> None:
                 "start(r) / finish / fail-retriable / kill-reroute with parked task bodies on both backends (results and "
                 "read-outs compared between backends, invariant and poll post-conditions evaluated on the real state); "
                 "schedules: two poller+worker actors over two same-key / different-key invocations, all schedules with "
-                "<= bound deviations (line points in memory, SQL-statement points in SQLite)")
+                "<= bound deviations (line points in memory, SQL-statement points in SQLite); plus the retention purge of a finished "
+                "same-key invocation against a concurrent submission of that key, then (sequentially) start + third submission + poll")
     ctx.assume("trigger-launched submissions take the same route_call path as single calls and are not enumerated separately")
     ctx.assume("history writers run last in the schedule part (explored in C10)")
 
